@@ -106,7 +106,7 @@ MUTANTS = {
     "stateful-key": ("lazy", [('            object_state = object_params.get(f"{do}_state")\n            if object_state:', '            object_state = object_params.get(f"{do}_states")\n            if object_state:')],
                      "refused", "another parameter key (not an atom)"),
     "stateful-reversed": ("lazy", [('                setup_objects += [test_object]', '                setup_objects = [test_object] + setup_objects')],
-                          "proof-breaks", "reverse object order"),
+                          "refused", "reverse object order (`+` on lists is outside the subset)"),
     "involved-setup-only": ("involved", [(INVOLVED_IDS, '            self._picked_by_setup_nodes.get_workers()\n')],
                             "proof-breaks", "only one register"),
     "involved-and": ("involved", [(INVOLVED_IDS, INVOLVED_IDS.replace('| self', '& self'))],
@@ -121,7 +121,7 @@ MUTANTS = {
                                        '        return results')],
                          "proof-breaks", "the bridged copies are not looked at"),
     "results-bridged-first": ("involved", [('            results += bridged_node.results\n', '            results = bridged_node.results + results\n')],
-                              "proof-breaks", "other order"),
+                              "refused", "other order (`+` on lists is outside the subset)"),
     "results-own-twice": ("involved", [('            results += bridged_node.results\n', '            results += self.results\n')],
                           "proof-breaks", "own results once per copy"),
 }
@@ -148,11 +148,16 @@ def run_one(name, scratch):
     except pygen.Unsupported as e:
         res.update(outcome="refused", detail=str(e)[:200])
         return res
-    with open(os.path.join(vlib.LEAN, "I2N", "Extracted", gen), "w") as fh:
+    dest = os.path.join(vlib.LEAN, "I2N", "Extracted", gen)
+    with open(dest, "w") as fh:
         fh.write(lean)
-    ok, log = vlib.lake_build(lemmas)
-    if ok:
-        ok, log = vlib.lake_build(props)
+    try:
+        ok, log = vlib.lake_build(lemmas)
+        if ok:
+            ok, log = vlib.lake_build(props)
+    finally:
+        with open(dest, "w") as fh:                    # the next mutant starts from the real source again
+            fh.write(pygen_pxloc.SOURCES[target]())
     errs = [l for l in log.splitlines() if l.startswith("error:")]
     res.update(outcome="still-proves" if ok else "proof-breaks", detail=(errs[0][:200] if errs else ""))
     return res
